@@ -41,7 +41,7 @@ BUDGET_S = {'quick': 240, 'thorough': 2400}
 
 FEATS = ('hier', 'abstract', 'unreg', 'extra', 'enum', 'strlike', 'any',
          'untyped', 'date', 'path', 'buf', 'abstract_containers', 'defaults',
-         'multi', 'hooks', 'norecognize', 'seasoned', 'raises', 'underscore')
+         'multi', 'hooks', 'norecognize', 'seasoned', 'raises', 'underscore', 'recursive')
 
 
 @st.composite
